@@ -10,7 +10,7 @@ def signature(lines, off):
     c = ev.get("c", {})
     base = {"server": "plain", "trust": "na", "format": "http", "lazy": True, "bad": "none", "rate": 0, "maxw": 1, "workers": 1, "name": "", "hdr": False,
             "body": False, "chunked": False, "maxbody": -1, "redirects": "default", "keepalive": True, "timeout": "default", "connectto": False,
-            "laddr": False, "prom": False, "maxconn": 0, "hosts": 1, "http2": True, "h2c": False, "hosthdr": False, "stall": False, "head": False, "lookup": False, "dnsdest": "none", "clientcert": "none"}
+            "laddr": False, "prom": False, "maxconn": 0, "hosts": 1, "http2": True, "h2c": False, "hosthdr": False, "stall": False, "head": False, "lookup": False, "dnsdest": "none", "clientcert": "none", "tickets": False}
     return "AttackCmd:" + ",".join("%s=%s" % (k, c[k]) for k in sorted(c) if c[k] != base.get(k))
 
 
